@@ -71,8 +71,8 @@ var c03bad = map[string][]string{
 	"features": {"<stream:error xmlns:stream='http://etherx.jabber.org/streams'><host-unknown xmlns='urn:ietf:params:xml:ns:xmpp-streams'/></stream:error>", "<message xmlns='jabber:client'/>", "<<<", ""},
 	"proceed":  {"<failure xmlns='urn:ietf:params:xml:ns:xmpp-tls'/>", "<message xmlns='jabber:client'/>", "<<<", ""},
 	"auth":     {"<failure xmlns='urn:ietf:params:xml:ns:xmpp-sasl'><not-authorized/></failure>", "<message xmlns='jabber:client'/>", "<<<", ""},
-	"bind":     {"<iq xmlns='jabber:client' type='error' id='1'><bind xmlns='urn:ietf:params:xml:ns:xmpp-bind'/><error type='cancel'><conflict xmlns='urn:ietf:params:xml:ns:xmpp-stanzas'/></error></iq>", "<iq xmlns='jabber:client' type='result' id='1'/>", "<message xmlns='jabber:client'/>", "<<<", ""},
-	"session":  {"<iq xmlns='jabber:client' type='error' id='2'><error type='cancel'><forbidden xmlns='urn:ietf:params:xml:ns:xmpp-stanzas'/></error></iq>", "<<<", ""},
+	"bind":     {"<iq xmlns='jabber:client' type='error' id='1'><bind xmlns='urn:ietf:params:xml:ns:xmpp-bind'/><error type='cancel'><conflict xmlns='urn:ietf:params:xml:ns:xmpp-stanzas'/></error></iq>", "<iq xmlns='jabber:client' type='result' id='1'/>", "<message xmlns='jabber:client'/>", "<message xmlns='jabber:client' type='result' id='1'><bind xmlns='urn:ietf:params:xml:ns:xmpp-bind'><jid>u@d/r</jid></bind></message>", "<<<", ""},
+	"session":  {"<presence xmlns='jabber:client' type='result' id='2'/>", "<iq xmlns='jabber:client' type='error' id='2'><error type='cancel'><forbidden xmlns='urn:ietf:params:xml:ns:xmpp-stanzas'/></error></iq>", "<<<", ""},
 	"enable":   {"<failed xmlns='urn:xmpp:sm:3'><unexpected-request xmlns='urn:ietf:params:xml:ns:xmpp-stanzas'/></failed>", "<failed xmlns='urn:xmpp:sm:3'/>", "<message xmlns='jabber:client'/>", "<<<", ""},
 	"resume":   {"<resumed xmlns='urn:xmpp:sm:3' previd='other' h='0'/>", "<message xmlns='jabber:client'/>", "<<<", ""},
 }
